@@ -33,22 +33,31 @@ TRUSTED = ['hand-written Gallina mirror Model/Molecular.v of the optimized chain
            'its operator table is kernel-checked against the 2x2 matrices and the matrices against the implementation opmap per run',
            'C05 development (Model/FromOpchains.v, Model/OpGraph.v den / is_consistent_fuel, Proofs/DenRev_C05.v linked)',
            'harness/molcap.py (capture by attribute wrapping, exact rational emitters); harness/hamref.py (independent Fock-space reference, search only)']
-PARTIAL = ('proved for ALL L and all coefficient functions over any cring: optimized graph = enumerated chain list whenever the model of from_opchains '
-           'returns a graph (any cover oracle); length, well-formedness, lattice fit and charge balance of every enumerated spinless chain; '
-           'soundness of the walk-based translation validation for any graph. BOUNDED in L but for all coefficient values (kernel vm_compute of a '
-           'symbolic multiset comparison): chain list = second-quantised formula for L <= 8 (spinless) and L <= 5 (spin); hence optimized graph = '
-           'formula in that range. NOT proved: the formula identity beyond that range; everything about the explicit constructions (not modelled: '
-           'validated per case in Coq on the implementation graph, L = 4..6 quick / ..7 thorough spinless, 2..3 quick / ..5 thorough spin, numeric '
-           'dyadic coefficients, i.e. sampled in the coefficients); that to_spin_opchain never raises (evaluated for L <= 5 and per case); success '
-           'of from_opchains (C05 gap, evaluated per case). (d) gauge matrices: nothing proved; for gauge cases whose unitary is exactly '
-           'representable (swap, phases i^k, their products, Pythagorean rotations (3/5,4/5), (5/13,12/13) composed with them) the implementation is '
-           'run with integer coefficient tensors scaled so that the rotated coefficients are integers, and Coq evaluates over Q[i] the MPO identity '
-           'in the convention of the documented usage -- all matrix elements of H.A[:i] (v_l W\'_i)(W\'_{i+1} v_r^T) H.A[i+2:] against those of the '
-           'MPO of the rotated coefficients -- exactly, with the returned v_l, v_r first compared entrywise (2^-40) with the exact rationals they '
-           'round; bounded in L (4..5), sampled in u; random unitaries only through the numpy predicate.')
+PARTIAL = ('proved for ALL L and all coefficient functions over any cring: every graph the model of from_opchains returns for the enumerated chain '
+           'list (any cover oracle) is linked and denotes the chain list; with the proved vertex-cover model the spinless optimized construction '
+           'SUCCEEDS for every L >= 1 unless every chain coefficient vanishes (C07_mol_opt_total); length, well-formedness, lattice fit and charge '
+           'balance of every enumerated spinless chain; soundness of the walk-based translation validation for any graph. BOUNDED in L but for all '
+           'coefficient values over every cring (kernel vm_compute of a symbolic multiset comparison): chain list = second-quantised formula for '
+           'L <= 10 (spinless) and L <= 6 (spin), hence optimized graph = formula there (C07_mol_exact_partial, C07_spin_exact_partial, the latter '
+           'including that to_spin_opchain never raises and success of the spin construction for L <= 6). NOT proved: the formula identity '
+           'beyond that range; well-formedness/success of the spin enumeration beyond L = 6; everything about the explicit constructions (not '
+           'modelled: validated per case in Coq on the graph the implementation built, L = 4..6 quick / ..7 thorough spinless, 2..3 quick / ..5 '
+           'thorough spin, numeric dyadic coefficients, i.e. sampled in the coefficients, all words); is_consistent levels / length of the '
+           'optimized graph (evaluated per case). (d) gauge matrices: nothing proved; for gauge cases with L <= 5 an exactly representable '
+           'unitary is derived from the seed (swap, phases i^k, their products, Pythagorean rotations (3/5,4/5), (5/13,12/13), (3,4i)/5 and '
+           'products with phases/swap); the implementation is run with integer coefficient tensors scaled so that the rotated coefficients are '
+           'Gaussian integers, and Coq evaluates over Q[i], for every rotated pair i, the MPO identity in the convention of the documented usage '
+           '-- all 4^L matrix elements of H.A[:i] (v_l W\'_i)(W\'_{i+1} v_r^T) H.A[i+2:] against those of the MPO of the rotated coefficients -- '
+           'exactly, the returned v_l, v_r being first compared entrywise (2^-40) with the Gaussian rationals (denominator den^2) they round; '
+           'bounded in L (4..5), sampled in u and in the coefficients; random unitaries only through the numpy predicate. '
+           'Observed on the unchanged tree: the zero operator (all chain coefficients zero, e.g. L = 1 with t_00 = 0 and any v) makes the '
+           'optimized constructors raise AssertionError (finding key molecular-zero-hamiltonian).')
 RULE = ('spinless: L in 1..7 (explicit path L >= 4), spin orbitals: L in 1..4 (explicit L >= 2); coefficient tensors real/complex, dense, sparse, '
         'symmetric (physical symmetries), zero-padded, integer-valued; both optimize flags and their agreement; gauge: every orbital pair i and '
-        'random 2x2 unitaries (real rotations, phases, generic); non-trivial = L >= 3 or explicit path; distinct by input digest')
+        'random 2x2 unitaries (real rotations, phases, generic); non-trivial = L >= 3 or explicit path; distinct by input digest. '
+        'Correspondence: the same coefficient tensors rounded to multiples of 1/8 (exact float arithmetic), both build paths captured; gauge cases '
+        'with L <= 5 additionally run with an exact Gaussian-rational unitary chosen by the seed and scaled integer tensors; thorough tier adds '
+        'translation-validation-only cases at L = 7 (spinless) and L = 4, 5 (spin)')
 IMPL_PARALLEL = True
 GAUGE_EXACT_LMAX = 5
 
@@ -116,11 +125,11 @@ def unitary(case):
 
 def exact_coefficients(case):
     """the case's coefficient tensors rounded to multiples of 1/8 (structure kept: zeros stay zero, symmetries survive the
-    entrywise odd rounding); all float arithmetic of the constructors on them is exact"""
+    entrywise odd rounding, except that t_00 := 1 if t rounds to zero); all float arithmetic of the constructors on them is exact"""
     t, v = coefficients(case)
     t, v = MC.dyadic(t), MC.dyadic(v)
-    if not np.any(t) and not np.any(v):
-        t[0, 0] = 1.0
+    if not np.any(t):
+        t[0, 0] = 1.0      # rounding must not produce the zero operator (all chain coefficients zero: from_opchains raises)
     return t, v
 
 
@@ -138,6 +147,11 @@ def exact_runs(case):
         rx, _ = MC.capture(case['kind'], te, ve, False)
         out['exp'] = {k: rx[k] for k in ('graph', 'error') if k in rx}
     return out
+
+
+def corpus():
+    # reproduces the open known finding 'molecular-zero-hamiltonian' deterministically (runs first)
+    return [{'kind': 'mol', 'L': 1, 'dtype': 'complex', 'struct': 'sparse', 'seed': 823233526, 'utype': 'rotation'}]
 
 
 def impl(case):
